@@ -33,7 +33,7 @@ def cd_module():
     return code_data
 
 
-def build(rng, size="small", canonical=True):
+def build(rng, size="small", canonical=True, depth=0):
     """Returns (CodeData, description).  Well-formed: operand kinds as the opcode table demands, jumps to existing
     blocks, relative jumps forward only, no private override fields."""
     cdm = cd_module()
@@ -71,6 +71,13 @@ def build(rng, size="small", canonical=True):
     while len(consts) < min(n_consts, 40):
         consts.append(fams[rng.randrange(len(fams))] if rng.random() < 0.6 else gen_const.value(rng, 0, 2))
     consts += [1000 + i for i in range(n_consts - len(consts))]
+    if size == "small" and depth == 0 and rng.random() < 0.35:
+        # nested hand-built code objects as constants (distinct names so that they are distinct constants)
+        for k in range(rng.choice([1, 2])):
+            child, _d = build(rng, "small", True, depth + 1)
+            import dataclasses as _dc
+            consts.insert(rng.randrange(len(consts) + 1), _dc.replace(child, name="child%d" % k, first_line_number=child.first_line_number + k))
+        desc["nested_children"] = True
     if functionlike and docstring is None and rng.random() < 0.5:
         consts.insert(0, "first const is a str")
     locs = params + ["l%d" % i for i in range(n_locals)]
